@@ -17,17 +17,25 @@ PRELUDE = cells.PRELUDE + "P :: struct { x: i32, y: u8 };\nOther :: enum { Q, R:
 
 
 def payload_value(p, k):
+    if p in ("^i32", "^P"):
+        return "^pvi" if p == "^i32" else "^pvp"
     return {None: None, "u8": f"u8.({10 + k})", "i32": f"i32.(-{100 + k})", "u64": f"u64.({5000000000 + k})", "P": f"P.{{ x = {k + 1}, y = {k + 2} }}",
             "[2]u16": f"u16.[{k + 3}, {k + 4}]", "bool": "true"}[p]
 
 
 def payload_print(p, arg):
     """(statements printing the payload of switch argument `arg`, expected text) for value index k"""
+    if p == "^i32":
+        return f'printf("%ld\\n", i64.({arg}^));'
+    if p == "^P":
+        return f'printf("%ld\\n", i64.({arg}.x));'
     return {None: "", "u8": f'printf("%ld\\n", i64.(u8.({arg})));', "i32": f'printf("%ld\\n", i64.(i32.({arg})));', "u64": f'printf("%ld\\n", i64.(u64.({arg})));',
             "P": f'printf("%ld\\n", i64.({arg}.x)); printf("%ld\\n", i64.({arg}.y));', "[2]u16": f'printf("%ld\\n", i64.([2]u16.({arg})[1]));', "bool": f'printf("%ld\\n", i64.(bool.({arg})));'}[p]
 
 
 def payload_expected(p, k):
+    if p in ("^i32", "^P"):
+        return "771\n" if p == "^i32" else "772\n"
     return {None: "", "u8": f"{10 + k}\n", "i32": f"-{100 + k}\n", "u64": f"{5000000000 + k}\n", "P": f"{k + 1}\n{k + 2}\n", "[2]u16": f"{k + 4}\n", "bool": "1\n"}[p]
 
 
@@ -38,20 +46,22 @@ def cell_spec(draw):
     if "enum" in kind:
         n = draw(st.integers(1, 6))
         variants = []
-        custom = draw(st.integers(0, 2)) == 0
+        # discriminants: all implicit, all manual, or mixed (manual ones small, so that they collide with the
+        # values the implicit counter would hand out)
+        custom = draw(st.sampled_from(["none", "all", "mixed", "mixed"]))
         used = set()
         for k in range(n):
             d = None
-            if custom:
-                d = draw(st.integers(0, 250))
+            if custom == "all" or (custom == "mixed" and draw(st.booleans())):
+                d = draw(st.integers(0, 250)) if custom == "all" else draw(st.integers(0, n + 1))
                 while d in used:
-                    d = (d + 7) % 251
+                    d = (d + 7) % 251 if custom == "all" else d + 1
                 used.add(d)
             variants.append({"p": draw(st.sampled_from(PAYLOADS)), "d": d})
         spec["variants"] = variants
         names = [f"V{k}" for k in range(n)]
     elif "opt" in kind:
-        spec["inner"] = draw(st.sampled_from(["i32", "u8", "P", "u64"]))
+        spec["inner"] = draw(st.sampled_from(["i32", "u8", "P", "u64", "^i32", "^P"]))
         names = ["some", "nil"]
     else:
         spec["ok"] = draw(st.sampled_from(["i32", "u8", "u64"]))
@@ -138,6 +148,8 @@ def make_cell(i, spec):
     ok = "foreign" not in named and len(set(named)) == len(named) and (set(named) == set(names) or spec["default"])
     redundant_default = spec["default"] and set(named) == set(names) and len(set(named)) == len(named) and "foreign" not in named
     body, out = [], ""
+    if "opt" in kind and spec["inner"].startswith("^"):
+        body.append("pvi : i32 = 771; pvp : P = P.{ x = 772, y = 1 };")
     for k, name in enumerate(names):
         v = value(name, k)
         conv = f"{T}.({base}.({v}))" if kind.startswith("distinct") and "enum" in kind else (f"{T}.({v})" if kind.startswith("distinct") else v)
